@@ -666,6 +666,79 @@ def impl_task(case):
             return {'res': exc_obs(ex)}
 
 
+def impl_runtask(case, workdir):
+    """`doit t <args...>` through DoitMain + ModuleTaskLoader (NamespaceTaskLoader.load_tasks sets cfg_values from
+    the `task:t` section) + TaskControl._process_filter (parses the arguments after the task name); the values are
+    observed by the task's own action (task.options, task.pos_arg_val) and by the order in which tasks ran"""
+    from doit.doit_cmd import DoitMain
+    from doit.cmd_base import ModuleTaskLoader
+    spec = case['spec']
+    names = [o['name'] for o in spec]
+    rec = {'order': []}
+
+    def act_t(task):
+        rec['t'] = (dict(task.options), task.pos_arg_val)
+        rec['order'].append('t')
+
+    def task_t():
+        d = {'actions': [act_t], 'params': [to_cmdoption_dict(o) for o in spec], 'verbosity': 0}
+        if case.get('pos_arg'):
+            d['pos_arg'] = 'posv'
+        return d
+
+    def mk(name):
+        def creator():
+            return {'actions': [lambda: rec['order'].append(name) or None], 'verbosity': 0}
+        return creator
+
+    ns = {'task_t': task_t, 'task_u': mk('u'), 'task_w': mk('w'), 'DOIT_CONFIG': {'verbosity': 0, 'reporter': 'zero'}}
+    old = os.getcwd()
+    os.chdir(workdir)
+    err, out = io.StringIO(), io.StringIO()
+    try:
+        for f in os.listdir(workdir):
+            os.remove(os.path.join(workdir, f))
+        kw = {'config_filenames': ()}
+        mode = case.get('ini_mode', 'api')
+        if mode == 'file':
+            with open('doit.cfg', 'w') as f:
+                f.write('[task:t]\n' + ''.join('%s = %s\n' % (k, c['raw']) for k, c in case['ini']))
+            kw = {'config_filenames': ('doit.cfg',)}
+        elif mode == 'toml':
+            def tv(c):
+                v = c['raw'] if 'raw' in c else c['val']
+                if isinstance(v, bool):
+                    return 'true' if v else 'false'
+                if isinstance(v, list):
+                    return '[' + ', '.join(json.dumps(x) for x in v) + ']'
+                return json.dumps(v)
+            with open('pyproject.toml', 'w') as f:
+                f.write('[tool.doit.tasks.t]\n' + ''.join('%s = %s\n' % (k, tv(c)) for k, c in case['ini']))
+            kw = {'config_filenames': ('pyproject.toml',)}
+        elif case['ini'] or case.get('cfg_not_none'):
+            kw['extra_config'] = {'task:t': cfg_py(case['ini'])}
+        with environ(case['env']), contextlib.redirect_stderr(err), contextlib.redirect_stdout(out):
+            try:
+                code = DoitMain(task_loader=ModuleTaskLoader(ns), **kw).run(['t'] + list(case['argv']))
+            except BaseException as ex:  # noqa
+                from doit.cmdparse import CmdParseError
+                if isinstance(ex, CmdParseError):
+                    return {'res': {'err': classify_error(str(ex)), 'escaped': True}, 'exit': 'exception'}
+                return {'res': {'err': 'crash', 'exc': type(ex).__name__}}
+    finally:
+        os.chdir(old)
+    text = err.getvalue()
+    if code == 0 and 't' in rec:
+        opts, posv = rec['t']
+        pos = list(posv) if case.get('pos_arg') else rec['order'][1:]
+        res = params_obs(names, opts, pos)
+        res['ok']['nd'] = None
+        return {'res': res, 'exit': code, 'ran': rec['order']}
+    if code == 3 and text.startswith('ERROR:') and 'Traceback' not in text:
+        return {'res': {'err': classify_error(text)}, 'exit': code}
+    return {'res': {'err': 'crash', 'exc': (text.strip().split('\n') or [''])[-1][:80]}, 'exit': code, 'ran': rec['order']}
+
+
 def impl_creator(case):
     """@task_params creator through doit.loader.load_tasks (config section `task:<name>`, args after the task name)"""
     from doit import loader
